@@ -597,4 +597,121 @@ theorem emitted_mid (pa pe pp pc : Option Pred) (cfg : Cfg) (eA eC : Ev) (bs : L
       have := step_single (nfaMid pa pe pp pc) cfg s2 eC _ _ hp hr (Or.inr hadv) hns
       simp [runAll, this, quiet]
 
+/-! ### the engine on `A` followed by non-A events, pattern `A -> all B` -/
+
+/-- the run of a trailing closure after A and the kept events -/
+def runTOf (eA : Ev) (kept : List Ev) (seq : Nat) : Run :=
+  match kept.getLast? with | some l => runT eA kept l seq | none => runAt1 eA seq
+
+/-- a trailing closure keeps every B that passes the filter — no cap is consulted (known finding) -/
+def keepT (pe : Option Pred) (eA : Ev) (kept : List Ev) (e : Ev) : List Ev :=
+  if e.ty = 1 ∧ predOk pe e (capOf eA kept) = true then kept ++ [e] else kept
+
+/-- what one event reports: the closure so far, iff the event extended it -/
+def outT (pe : Option Pred) (eA : Ev) (kept : List Ev) (e : Ev) : List (List Match) :=
+  if e.ty = 1 ∧ predOk pe e (capOf eA kept) = true then [[matchT eA (kept ++ [e]) e]] else []
+
+theorem step_completeCont (nfa : Nfa) (cfg : Cfg) (s : Eng) (e : Ev) (r r' : Run) (m : Match) (hp : cfg.partitioned = false)
+    (hr : s.runs = [r]) (ha : advance nfa cfg.lim r e = .completeCont r' m) (hs : tryStart nfa e s.nextSeq = .none) :
+    step nfa cfg s e = some ({ s with runs := [r'], completed := s.completed + 1 }, { emitted := [[m]] }) := by
+  simp [step, hp, hr, processRuns, ha, hs]
+
+theorem stepT (pa pe : Option Pred) (cfg : Cfg) (s : Eng) (eA e : Ev) (kept : List Ev) (hp : cfg.partitioned = false)
+    (hr : s.runs = [runTOf eA kept 0]) (he : e.ty ≠ 0) :
+    ∃ s', step (nfaTrail pa pe) cfg s e = some (s', { emitted := outT pe eA kept e }) ∧
+      s'.runs = [runTOf eA (keepT pe eA kept e) 0] := by
+  have hns := tryStart_trail_none pa pe e s.nextSeq he
+  cases hl : kept.getLast? with
+  | none =>
+    have hnil : kept = [] := by simpa [List.getLast?_eq_none_iff] using hl
+    subst hnil
+    have hr' : s.runs = [runAt1 eA 0] := by simpa [runTOf] using hr
+    have hadv := advT_first pa pe cfg.lim eA e 0 he
+    by_cases hc : e.ty = 1 ∧ predOk pe e [(0, eA)] = true
+    · simp only [hc, and_self, if_true] at hadv
+      have hout : outT pe eA [] e = [[matchT eA ([] ++ [e]) e]] := by simp [outT, capOf, hc]
+      rw [hout]
+      exact ⟨_, step_completeCont _ cfg s e _ _ _ hp hr' hadv hns, by simp [keepT, capOf, hc, runTOf]⟩
+    · simp only [hc, if_false] at hadv
+      have hout : outT pe eA [] e = [] := by simp [outT, capOf, hc]
+      rw [hout]
+      exact ⟨_, step_single _ cfg s e _ _ hp hr' (Or.inr hadv) hns, by simp [keepT, capOf, hc, runTOf]⟩
+  | some l =>
+    have hr' : s.runs = [runT eA kept l 0] := by simpa [runTOf, hl] using hr
+    have hadv := advT_loop pa pe cfg.lim eA l e kept 0 he
+    by_cases hc : e.ty = 1 ∧ predOk pe e (capAB eA l) = true
+    · simp only [hc, and_self, if_true] at hadv
+      have hout : outT pe eA kept e = [[matchT eA (kept ++ [e]) e]] := by simp [outT, capOf, hl, hc]
+      rw [hout]
+      exact ⟨_, step_completeCont _ cfg s e _ _ _ hp hr' hadv hns, by simp [keepT, capOf, hl, hc, runTOf]⟩
+    · simp only [hc, if_false] at hadv
+      have hout : outT pe eA kept e = [] := by simp [outT, capOf, hl, hc]
+      rw [hout]
+      exact ⟨_, step_single _ cfg s e _ _ hp hr' (Or.inr hadv) hns, by simp [keepT, capOf, hl, hc, runTOf]⟩
+
+/-- outputs of a stream of non-A events after A -/
+def outsT (pe : Option Pred) (eA : Ev) : List Ev → List Ev → List (List (List Match))
+  | _, [] => []
+  | kept, e :: es => outT pe eA kept e :: outsT pe eA (keepT pe eA kept e) es
+
+theorem runAll_trail (pa pe : Option Pred) (cfg : Cfg) (eA : Ev) (hp : cfg.partitioned = false) :
+    ∀ (es : List Ev) (s : Eng) (kept : List Ev), (∀ e ∈ es, e.ty ≠ 0) → s.runs = [runTOf eA kept 0] →
+      (runAll (nfaTrail pa pe) cfg s es).map (fun r => r.2.map (·.emitted)) = some (outsT pe eA kept es) := by
+  intro es
+  induction es with
+  | nil => intro s kept _ _; simp [runAll, outsT]
+  | cons e es ih =>
+    intro s kept he hr
+    obtain ⟨s', h1, h2⟩ := stepT pa pe cfg s eA e kept hp hr (he e (by simp))
+    have := ih s' (keepT pe eA kept e) (fun x hx => he x (List.mem_cons_of_mem _ hx)) h2
+    simp only [runAll, h1, outsT]
+    cases hra : runAll (nfaTrail pa pe) cfg s' es with
+    | none => simp [hra] at this
+    | some r2 => simp [hra] at this ⊢; exact this
+
+/-- `A` followed by any events that are not of type A, on `A -> all B` -/
+theorem emitted_trail (pa pe : Option Pred) (cfg : Cfg) (eA : Ev) (es : List Ev)
+    (hp : cfg.partitioned = false) (hm : 1 ≤ cfg.maxRuns) (hA : eA.ty = 0) (hpa : predOk pa eA [] = true)
+    (he : ∀ e ∈ es, e.ty ≠ 0) :
+    emittedAll (nfaTrail pa pe) cfg (eA :: es) = some ([] :: outsT pe eA [] es) := by
+  have h1 : step (nfaTrail pa pe) cfg {} eA =
+      some ({ runs := [runAt1 eA 0], created := 1, nextSeq := 1 }, { emitted := [], started := true, bp := some .added }) := by
+    have : (0 : Nat) < cfg.maxRuns := by omega
+    simp [step, hp, processRuns, tryStart_trail_A pa pe eA 0 hA hpa, handleBp, this]
+  have h2 := runAll_trail pa pe cfg eA hp es { runs := [runAt1 eA 0], created := 1, nextSeq := 1 } [] he rfl
+  simp only [emittedAll, runAll, h1]
+  cases hra : runAll (nfaTrail pa pe) cfg { runs := [runAt1 eA 0], created := 1, nextSeq := 1 } es with
+  | none => simp [hra] at h2
+  | some r2 => simp [hra] at h2 ⊢; exact h2
+
+/-- successive reports of a trailing closure carry strictly longer stacks (hence are pairwise distinct),
+and each is longer than the closure was before -/
+theorem outsT_stacks (pe : Option Pred) (eA : Ev) : ∀ (es kept : List Ev),
+    (∀ m ∈ (outsT pe eA kept es).flatten.flatten, kept.length + 1 < m.stack.length) ∧
+    ((outsT pe eA kept es).flatten.flatten.map (·.stack.length)).Pairwise (· < ·) := by
+  intro es
+  induction es with
+  | nil => intro kept; simp [outsT]
+  | cons e es ih =>
+    intro kept
+    have ih' := ih (keepT pe eA kept e)
+    by_cases hc : e.ty = 1 ∧ predOk pe e (capOf eA kept) = true
+    · have hk : keepT pe eA kept e = kept ++ [e] := by simp [keepT, hc]
+      have ho : outT pe eA kept e = [[matchT eA (kept ++ [e]) e]] := by simp [outT, hc]
+      rw [hk] at ih'
+      simp only [outsT, ho, hk, List.flatten_cons, List.flatten_nil, List.append_nil, List.cons_append, List.nil_append,
+        List.map_cons, List.pairwise_cons, List.mem_cons, List.mem_map]
+      refine ⟨?_, ?_, ih'.2⟩
+      · intro m hm
+        rcases hm with rfl | hm
+        · simp [matchT]
+        · have := ih'.1 m hm; simp at this; omega
+      · rintro n ⟨m, hm, rfl⟩
+        have := ih'.1 m hm
+        simp [matchT] at this ⊢; omega
+    · have hk : keepT pe eA kept e = kept := by simp [keepT, hc]
+      have ho : outT pe eA kept e = [] := by simp [outT, hc]
+      rw [hk] at ih'
+      simpa [outsT, ho, hk] using ih'
+
 end Varpulis.SaseB
